@@ -282,32 +282,35 @@ def samples_of(cases, n=3):
 
 def purity_violations(calls, orders=None, what="value"):
     """Pure functions must not depend on call history: evaluate the same list of calls
-    [(label, fn, args), ...] in several orders inside ONE process and demand bitwise equal results
-    per call.  A memo keyed too coarsely, a hoisted scratch buffer or a mutated default shows up as
-    a difference between two orders."""
+    [(label, 'module:function', args[, post]), ...] in several orders, EACH ORDER IN A FRESH
+    INTERPRETER, and demand bitwise equal results per call.  A memo keyed too coarsely, a hoisted
+    scratch buffer or a mutated default shows up as a difference between two orders (within one
+    process the first caller would already have populated a module-level memo for all orders)."""
+    import pickle  # noqa: PLC0415
+    import subprocess  # noqa: PLC0415
+
     import numpy as np  # noqa: PLC0415
 
+    calls = [tuple(c) + (None,) * (4 - len(c)) for c in calls]
     n = len(calls)
     if orders is None:
         orders = [list(range(n)), list(range(n - 1, -1, -1)),
                   [i for k in range(3) for i in range(k, n, 3)]]
+    env = dict(os.environ, VERIF_REPO=str(REPO), PYTHONDONTWRITEBYTECODE="1", MPLBACKEND="Agg")
     results = []
     for order in orders:
-        got = {}
-        for i in order:
-            label, fn, args = calls[i]
-            try:
-                got[i] = ("ok", np.asarray(fn(*args), dtype=float).tobytes())
-            except Exception as e:  # noqa: BLE001
-                got[i] = ("raise", type(e).__name__)
-        results.append(got)
+        r = subprocess.run([sys.executable, "-W", "ignore", "-m", "mc.purity_worker"], cwd=str(VERIF), env=env,
+                           input=pickle.dumps({"calls": calls, "order": order}), capture_output=True, timeout=600)
+        if r.returncode != 0:
+            return [V("purity/worker-failed", r.stderr.decode()[-400:], case={"order": order[:5]})]
+        results.append(pickle.loads(r.stdout))
     out = []
     for i in range(n):
         vals = {r[i] for r in results}
         if len(vals) > 1:
-            label, fn, args = calls[i]
+            label, path, args, _ = calls[i]
             shown = [float(np.frombuffer(v[1])[0]) if v[0] == "ok" and len(v[1]) >= 8 else v for v in vals]
             out.append(V("purity/result-depends-on-call-history",
-                         f"{label}{tuple(args)} returns different {what}s depending on which calls preceded it "
-                         f"in the same process: {shown}", case={"call": label, "args": list(args)}, observed=shown))
+                         f"{label}{jsonable(args)} returns different {what}s depending on which calls preceded it "
+                         f"in the same process: {shown}", case={"call": label, "args": jsonable(args)}, observed=shown))
     return out
